@@ -235,6 +235,17 @@ class Vfs:
         self._event("getcwd", self.cwd)
         return self.cwd
 
+    def chdir(self, path) -> None:
+        """The working directory belongs to the process (all of its threads)."""
+        p = self._abs(path)
+        self._event("chdir", p)
+        r, ex = self._resolve(p)
+        if not ex:
+            raise FileNotFoundError(errno.ENOENT, os.strerror(errno.ENOENT), p)
+        if self.nodes[r][0] != "d":
+            raise NotADirectoryError(errno.ENOTDIR, os.strerror(errno.ENOTDIR), p)
+        self.cwd = r
+
     def open(self, file, mode="r", *args, **kwargs):
         p = self._abs(file)
         f = self._event("open", p)
@@ -277,6 +288,7 @@ class Vfs:
         posixpath.exists = self.exists
         posixpath.realpath = self.realpath
         os.getcwd = self.getcwd
+        os.chdir = self.chdir
         util.open = self.open  # open_utf8() looks `open` up in its module globals first
         for mod in (os.path, posixpath):
             mod.isfile, mod.isdir, mod.islink = self.isfile, self.isdir, self.islink
